@@ -8,6 +8,8 @@ extern "C" {
    void vp_assert(int cond, int id);        // the property
    uint64_t vp_fork(uint64_t);              // force a case split on every feasible value (native: identity)
    void vp_observe(uint64_t tag, uint64_t v); // address-independent observation for the differential run
-   void vp_done(void);                      // end-of-harness witness
+   void vp_done(void);
+   void vp_mark(void);                      // start of a leak-accounting window (native: no-op, LeakSanitizer does the accounting)
+   void vp_leakcheck(void);                 // every heap block allocated since vp_mark() must have been released                      // end-of-harness witness
 }
 #endif
